@@ -42,7 +42,8 @@ def fake_point(k, g, mu):
            4: lib._L4DynamicsService, 5: lib._L5DynamicsService}[k]
     dyn = types.SimpleNamespace(gamma=g, mu=mu)
     dyn.sign = cls.sign.fget(dyn)
-    dyn.a = T.retarget(cls.a.fget)(dyn) if k <= 3 else cls.a.fget(types.SimpleNamespace(mu=mu))
+    if k <= 3:
+        dyn.a = T.retarget(cls.a.fget)(dyn)
     return types.SimpleNamespace(mu=mu, dynamics=dyn)
 
 
@@ -183,6 +184,97 @@ def legendre_coeffs_from(Ts, Nmax, log):
     return out, wiring
 
 
+def run_tri_builders(Nmax, mu, sgn):
+    """execute the CURRENT `_build_A_polynomials` and `_build_physical_hamiltonian_triangular` on exact polynomials; returns the
+    Hamiltonian, the offsets (d_x, d_y) the builder handed to `_build_A_polynomials`, the A_n lists it got back"""
+    from hiten.algorithms.hamiltonian import hamiltonian as hm
+    log = []
+    ops = xp_ops(log)
+    memo = {}
+    Ab = T.retarget(hm._build_A_polynomials, ops, memo)
+    calls = []
+
+    def A_rec(px, py, pz, dx, dy, *a, **kw):
+        out = Ab(px, py, pz, dx, dy, *a, **kw)
+        calls.append((Fraction(float(dx)), Fraction(float(dy)), out))
+        return out
+    ops2 = dict(ops)
+    ops2["_build_A_polynomials"] = A_rec
+    pt = types.SimpleNamespace(mu=mu, dynamics=types.SimpleNamespace(sign=sgn))
+    H = T.retarget(hm._build_physical_hamiltonian_triangular, ops2, {})(pt, Nmax)
+    return H, calls
+
+
+def tri_recurrence(Nmax, dx, dy):
+    """(m, c1_m, c2_m) for m = 2..Nmax read from the scale factors `_build_A_polynomials` hands to `_polynomial_add_inplace`
+    (tail of the log: c1, -c2, 1, 1 per step) and the wiring check A_0 = 1, A_1 = d.r, A_m = c1 (d.r) A_(m-1) - c2 rho^2 A_(m-2)"""
+    from hiten.algorithms.hamiltonian import hamiltonian as hm
+    log = []
+    ops = xp_ops(log)
+    x, y, z = [ops["_polynomial_variable"](i, Nmax) for i in range(3)]
+    As = T.retarget(hm._build_A_polynomials, ops, {})(x, y, z, float(dx), float(dy), Nmax, None, None, None)
+    scales = [q for tag, q in log if tag == "add"]
+    tail = scales[len(scales) - 4 * (Nmax - 1):]
+    head = scales[:len(scales) - 4 * (Nmax - 1)]
+    wiring = head == [Fraction(dx), Fraction(dy), 1, 1, 1, Fraction(dx), Fraction(dy)]
+    out = []
+    for m in range(2, Nmax + 1):
+        seg = tail[4 * (m - 2): 4 * (m - 1)]
+        if len(seg) != 4 or seg[2:] != [1, 1]:
+            wiring = False
+            break
+        out.append((m, seg[0], -seg[1]))
+    mine = tri_A_exact(Nmax, Fraction(dx), Fraction(dy), out)
+    for n in range(Nmax + 1):
+        if n >= len(As) or As[n].d != mine[n].d:
+            wiring = False
+    shape = all(sum(e) == n and not any(e[3:]) for n in range(Nmax + 1) for e in mine[n].d)
+    return out, wiring, shape
+
+
+def tri_A_exact(Nmax, dx, dy, coeffs):
+    """the A_n of the documented recurrence, with the given coefficient list, on exact polynomials (independent of the builder)"""
+    ops = xp_ops([])
+    x, y, z = [ops["_polynomial_variable"](i, Nmax) for i in range(3)]
+    rho2 = XP({}, Nmax)
+    for v in (x, y, z):
+        ops["_polynomial_add_inplace"](rho2, ops["_polynomial_multiply"](v, v, Nmax), Fraction(1))
+    dot = XP({}, Nmax)
+    ops["_polynomial_add_inplace"](dot, x, dx)
+    ops["_polynomial_add_inplace"](dot, y, dy)
+    A = [XP({(0,) * 6: Fraction(1)}, Nmax), dot.copy()]
+    for (m, c1, c2) in coeffs:
+        nxt = XP({}, Nmax)
+        ops["_polynomial_add_inplace"](nxt, ops["_polynomial_multiply"](dot, A[m - 1], Nmax), c1)
+        ops["_polynomial_add_inplace"](nxt, ops["_polynomial_multiply"](rho2, A[m - 2], Nmax), -c2)
+        A.append(nxt)
+    return A
+
+
+def tri_assembly(Nmax, mu, sgn, coeffs):
+    """H built by the current triangular builder == 1/2|p|^2 + y p_x - x p_y + (1/2 - mu) x + d_y y - (1-mu) sum A^S_n - mu sum A^J_n with
+    the constant removed, where A^S, A^J follow the documented recurrence for the offsets the builder passed; returns (ok, offsets)"""
+    H, calls = run_tri_builders(Nmax, mu, sgn)
+    if len(calls) != 2:
+        return False, []
+    (dSx, dSy, AS), (dJx, dJy, AJ) = calls
+    mu_q = Fraction(float(mu))
+    exp = {(0, 0, 0, 2, 0, 0): Fraction(1, 2), (0, 0, 0, 0, 2, 0): Fraction(1, 2), (0, 0, 0, 0, 0, 2): Fraction(1, 2),
+           (0, 1, 0, 1, 0, 0): Fraction(1), (1, 0, 0, 0, 1, 0): Fraction(-1)}
+    exp[(1, 0, 0, 0, 0, 0)] = exp.get((1, 0, 0, 0, 0, 0), 0) + Fraction(0.5 - float(mu))
+    exp[(0, 1, 0, 0, 0, 0)] = exp.get((0, 1, 0, 0, 0, 0), 0) + dSy
+    for (dx, dy, w) in ((dSx, dSy, -(1 - mu_q)), (dJx, dJy, -mu_q)):
+        A = tri_A_exact(Nmax, dx, dy, coeffs)
+        for n in range(0, Nmax + 1):
+            for e, c in A[n].d.items():
+                exp[e] = exp.get(e, 0) + w * c
+    exp.pop((0,) * 6, None)
+    exp = {e: c for e, c in exp.items() if c != 0}
+    got = {e: c for e, c in H.d.items() if c != 0}
+    # the weights -(1-mu), -mu are formed in floats by the builder: exact for the dyadic mu used here
+    return got == exp, [(dSx, dSy), (dJx, dJy)]
+
+
 def dyq(q):
     q = Fraction(q)
     d = q.denominator
@@ -200,7 +292,7 @@ def gen(ctx):
     txt += "open RE\n"
     vidx = {n: i for i, n in enumerate(LOCVARS)}
     TRC = {}
-    for k in (1, 2, 3):
+    for k in (1, 2, 3, 4, 5):
         try:
             phi, Ephi, acc, back = trace_point(k)
             named, defs = T.canonical_sqrt_names([Ephi] + acc, "lq%d_" % k)
@@ -249,6 +341,29 @@ def gen(ctx):
     except Exception as ex:
         ctx.broken.append(("trace:builders", repr(ex)))
         ctx.obligations["trace:builders"] = False
+    # ---- triangular builders on exact polynomials ----------------------------------------------------------------
+    try:
+        rq = lambda q: "(%d, %d)" % (Fraction(q).numerator, Fraction(q).denominator)
+        co3, wiring3, shape3 = tri_recurrence(NMAX, 0.5, 0.75)       # generic dyadic offset markers
+        txt += "-- triangular expansion: coefficients (c1_m, c2_m) of A_m = c1 (d.r) A_(m-1) - c2 rho^2 A_(m-2) read back from the current builder\n"
+        txt += "def triAB : List (Nat × (Int × Nat) × (Int × Nat)) := [%s]\n" % ", ".join("(%d, %s, %s)" % (n, rq(a), rq(b)) for n, a, b in co3)
+        txt += "def triWiringOK : Bool := %s   -- A_0 = 1, A_1 = d.r, recurrence exactly as documented (offset markers d = (1/2, 3/4))\n" % str(wiring3).lower()
+        txt += "def triShapeOK : Bool := %s   -- every A_n is homogeneous of degree n and free of momenta\n" % str(shape3).lower()
+        for k, sgn in ((4, 1.0), (5, -1.0)):
+            oks, offs = [], None
+            for mu_m in (0.1875, 0.40625):     # two dyadic mass-parameter markers: the weights -(1-mu), -mu and (1/2-mu) are exact
+                ok, o = tri_assembly(NMAX, mu_m, sgn, co3)
+                oks.append(ok)
+                offs = offs or o
+                if offs != o:
+                    oks.append(False)
+            txt += ("def triAssemblyOK%d : Bool := %s   -- H = 1/2|p|^2 + y p_x - x p_y + (1/2-mu) x + d_y y - (1-mu) sum_(n<=N) A^S_n - mu sum_(n<=N) A^J_n, "
+                    "constant removed\n" % (k, str(all(oks)).lower()))
+            txt += "def triOffsets%d : List ((Int × Nat) × (Int × Nat)) := [%s]   -- (d_x, d_y) handed to _build_A_polynomials: primary, secondary\n" % (
+                k, ", ".join("(%s, %s)" % (rq(a), rq(b)) for a, b in (offs or [])))
+    except Exception as ex:
+        ctx.broken.append(("trace:triangular-builders", repr(ex)))
+        ctx.obligations["trace:triangular-builders"] = False
     txt += E.footer("C07")
     ctx.write_gen("HitenModel.Gen.C07", txt)
     from props import c04
@@ -278,14 +393,20 @@ def validate(ctx, TRC):
         sysm = System.from_mu(mu)
         for k, (phi, Ephi, acc) in TRC.items():
             L = sysm.get_libration_point(k)
-            g = float(L.dynamics.gamma)
+            g = float(L.dynamics.gamma) if k <= 3 else 1.0
+            from hiten.algorithms.common.energy import crtbp_energy
+            from hiten.algorithms.dynamics.rtbp import _crtbp_accel
             for _ in range(10):
                 c = np.array([ctx.rng.uniform(-0.05, 0.05) for _ in range(6)])
                 env = dict(zip(LOCVARS[:6], c))
                 env.update({"gamma": g, "mu": mu})
-                got = tr._local2synodic_collinear(L, c)
+                got = (tr._local2synodic_collinear if k <= 3 else tr._local2synodic_triangular)(L, c)
                 mod = np.array([T.evalf(p, env) for p in phi])
                 err = float(np.abs(got - mod).max())
+                # the composed energy / field terms against the compiled functions at the real image point
+                err = max(err, abs(T.evalf(Ephi, env) - float(crtbp_energy(got, mu))) / (1 + abs(float(crtbp_energy(got, mu)))))
+                fa = np.asarray(_crtbp_accel(got, mu), dtype=float)
+                err = max(err, float(np.abs(np.array([T.evalf(a, env) for a in acc]) - fa).max() / (1 + np.abs(fa).max())))
                 worst = max(worst, err)
                 ctx.traces_validated += 1
                 if not err <= 1e-13:
